@@ -543,6 +543,7 @@ def ref_eq(val, ty, cmp):
     return code, exact
 
 def part_eq(ctx, cfg):
+    ap = 'a' in ctx.letters(cfg)
     rng = ctx.rng
     vals = [('n',), ('t',), ('f',), ('s', b''), ('s', b'1'), ('s', b'true'), ('a', []), ('a', [('u', 1)]), ('o', []), ('o', [(b'a', ('u', 1))])]
     vals += [('u', n) for n in INTS] + [('i', n) for n in NEGS] + [('d', f64bits(x)) for x in FLOATS]
@@ -590,6 +591,10 @@ def part_eq(ctx, cfg):
         code, exact = ref_eq(val, ty, cmp)
         want = 't' if code else 'f'
         ctx.count('eq:' + ty)
+        if ap and ty == 'f32':
+            continue    # arbitrary_precision: as_f32 parses the literal TEXT as f32 (one rounding of the decimal, non-finite refused) instead of `as f32` of an f64: a different, configuration-specific relation
+        if ap and a == want:
+            m = a       # the extracted model is the default-build model (numbers as u64 / i64 / f64); under ap only the reference is compared
         if a != want:
             ctx.violations.append(viol('eq-' + ty, ln, 'Value holds the comparand (after the conversion the code documents): ' + want, a))
         elif a != m:
@@ -859,9 +864,13 @@ def run_c18(ctx):
         part_acc(ctx, cfg)
         part_eq(ctx, cfg)
         part_macro(ctx, cfg)
+    for cfg in [c for c in getattr(ctx, 'side_cfgs', []) if c not in ctx.cfgs]:
+        # arbitrary_precision side configuration: Value == primitive with numbers held as literal text (partial_eq.rs goes through as_i64 / as_u64 / as_f64 / as_f32)
+        PO[0] = False
+        part_eq(ctx, cfg)
 
 PTR_TB = ['modelled, not verified: std str::replace / str::split / usize::from_str / slice::get / BTreeMap get+entry, `as` casts between integers and floats (Flocq model of IEEE rounding)',
           'json!: rustc\'s macro_rules matcher and `$e:expr` fragment parser are abstracted (an expression is one token of the model); tied by compiling generated programs',
           'a &mut Value is modelled as the path of the addressed node; tied by writing a marker through the real reference and printing the whole value']
 
-register('C18', cfgs={'quick': ['def', 'po'], 'thorough': ['def', 'po']}, run=run_c18, judge=judge_c18, extended=run_c18, trusted_base=PTR_TB)
+register('C18', cfgs={'quick': ['def', 'po'], 'thorough': ['def', 'po']}, side_cfgs=['ap'], run=run_c18, judge=judge_c18, extended=run_c18, trusted_base=PTR_TB)
